@@ -280,3 +280,40 @@ Proof.
         -- injection Hin as <- <-. left. lia.
         -- right. exists s', e'. split; assumption.
 Qed.
+
+(* ------------------------------------------------------------------ *)
+(* progress accounting (C12): a loop never reports more bytes copied    *)
+(* than it was asked to copy, whatever its outcome                      *)
+(* ------------------------------------------------------------------ *)
+Lemma copied_updates_total tr : sumN (copied_updates tr) = total_moved tr.
+Proof.
+  unfold copied_updates, total_moved. induction tr as [|[r [k|e]] t IH]; cbn [flat_map map sumN app snd moved]; lia.
+Qed.
+
+Lemma copy_bytes_total_le fuel : forall bs len w cur ans,
+  w <= len -> ans_bounded (o_trace (copy_bytes fuel bs len w cur ans)) ->
+  total_moved (o_trace (copy_bytes fuel bs len w cur ans)) <= len - w.
+Proof.
+  induction fuel as [|f IH]; intros bs len w cur ans Hw; cbn [copy_bytes].
+  - destruct (len <=? w); cbn; unfold total_moved; cbn; lia.
+  - destruct (N.leb_spec len w); [unfold total_moved; cbn; lia|].
+    destruct ans as [|[k|e] rest]; cbn [o_trace out_cons]; [unfold total_moved; cbn; lia| |].
+    + intros Hb. inversion Hb as [|? ? Hk Hb']; subst. cbn [fst snd moved r_len] in Hk.
+      assert (w + k <= len) as Hw' by lia. specialize (IH bs len (w + k) (cur + k) rest Hw' Hb').
+      unfold total_moved in *. cbn [map sumN snd moved]. lia.
+    + intros _. unfold total_moved. cbn. lia.
+Qed.
+
+Lemma block_job_total_le fuel : forall flen off bytes done ans,
+  done <= bytes -> ans_bounded (o_trace (block_job fuel flen off bytes done ans)) ->
+  total_moved (o_trace (block_job fuel flen off bytes done ans)) <= bytes - done.
+Proof.
+  induction fuel as [|f IH]; intros flen off bytes done ans Hd; cbn [block_job]; [unfold total_moved; cbn; lia|].
+  destruct ans as [|[k|e] rest]; cbn [o_trace]; [unfold total_moved; cbn; lia| |unfold total_moved; cbn; lia].
+  destruct (N.eqb_spec k 0) as [->|Hk0]; [unfold total_moved; cbn; lia|].
+  destruct (N.leb_spec bytes (done + k)); cbn [o_trace out_cons].
+  - intros Hb. inversion Hb as [|? ? Hk _]; subst. cbn [fst snd moved r_len] in Hk. unfold total_moved; cbn. lia.
+  - intros Hb. inversion Hb as [|? ? Hk Hb']; subst. cbn [fst snd moved r_len] in Hk.
+    assert (done + k <= bytes) as Hd' by lia. specialize (IH flen off bytes (done + k) rest Hd' Hb').
+    unfold total_moved in *. cbn [map sumN snd moved]. lia.
+Qed.
